@@ -88,6 +88,7 @@ pub fn minimise(def: &CheckDef, sc: &Value, class: &str, budget_runs: usize, bud
 #[derive(Serialize, Deserialize, Default)]
 struct WorkerSummary {
     runs: u64,
+    evals: u64,
     nontrivial_runs: u64,
     traces: Vec<u64>,
     nontrivial_traces: Vec<u64>,
@@ -154,6 +155,7 @@ pub fn cmd_worker(args: &[String]) -> i32 {
             eprintln!("PROFILE run={i} ms={:.2} big={big} steps={}", t_run.elapsed().as_secs_f64() * 1000.0, r.steps);
         }
         sum.runs += 1;
+        sum.evals += r.evals.max(1);
         traces.insert(r.trace_hash);
         states.insert(r.state_hash);
         if r.nontrivial {
@@ -294,6 +296,7 @@ pub fn cmd_check(args: &[String]) -> i32 {
                     if let Ok(s) = serde_json::from_value::<WorkerSummary>(v["data"].clone()) {
                         got_summary = true;
                         total.runs += s.runs;
+                        total.evals += s.evals;
                         total.nontrivial_runs += s.nontrivial_runs;
                         traces.extend(s.traces);
                         nt_traces.extend(s.nontrivial_traces);
@@ -387,7 +390,8 @@ pub fn cmd_check(args: &[String]) -> i32 {
         "seed": seed,
         "level": def.level,
         "coverage": {
-            "evaluations": total.runs,
+            "evaluations": total.evals,
+            "scenarios": total.runs,
             "distinct_nontrivial": nt_traces.len(),
             "rule": def.rule,
             "samples": total.samples,
